@@ -265,8 +265,14 @@ func (p *Program) Features() []string {
 				if f.Name != f.Ref {
 					set["obj:named"] = true
 				}
+				if inl {
+					set["inline:obj"] = true
+				}
 			case KInline:
 				set[rep+"inline"] = true
+				if inl {
+					set["inline:nested"] = true
+				}
 				walk(f.Inline, true)
 			case KMatch:
 				nm++
@@ -310,6 +316,82 @@ func (p *Program) Features() []string {
 	}
 	for _, k := range p.Packets {
 		walk(k, false)
+	}
+	// shapes of the reference graph that the emitted self-tests are sensitive to
+	referenced := map[string]bool{}
+	for _, k := range p.Packets {
+		count := map[string]int{}
+		var closure func(q *Packet, viaMatch bool, depth int)
+		closure = func(q *Packet, viaMatch bool, depth int) {
+			if depth > 12 {
+				return
+			}
+			for _, f := range q.Fields {
+				switch f.Kind {
+				case KObj:
+					count[f.Ref]++
+					referenced[f.Ref] = true
+					if q != k {
+						set["obj-in-closure"] = true
+					}
+					if f.Repeat {
+						if t := p.PacketByName(f.Ref); t != nil {
+							for _, sf := range t.Fields {
+								if sf.Kind == KMatch {
+									set["repeat-obj-has-match"] = true
+								}
+								if sf.Kind == KObj || sf.Kind == KInline {
+									set["repeat-obj-has-obj"] = true
+								}
+							}
+						}
+					}
+					if viaMatch {
+						set["match-payload-has-ref"] = true
+					}
+					if t := p.PacketByName(f.Ref); t != nil {
+						closure(t, viaMatch, depth+1)
+					}
+				case KInline:
+					if q != k {
+						set["inline-in-closure"] = true
+					}
+					if viaMatch {
+						set["match-payload-has-inline"] = true
+					}
+					if f.Repeat {
+						for _, sf := range f.Inline.Fields {
+							if sf.Kind == KObj || sf.Kind == KInline {
+								set["repeat-inline-has-obj"] = true
+							}
+						}
+					}
+					closure(f.Inline, viaMatch, depth+1)
+				case KMatch:
+					if q != k {
+						set["match-in-closure"] = true
+					}
+					if viaMatch {
+						set["match-payload-has-match"] = true
+					}
+					for i, pr := range f.Pairs {
+						referenced[pr.Target] = true
+						if i == 0 {
+							count[pr.Target]++
+							if t := p.PacketByName(pr.Target); t != nil {
+								closure(t, true, depth+1)
+							}
+						}
+					}
+				}
+			}
+		}
+		closure(k, false, 0)
+		for _, n := range count {
+			if n >= 2 {
+				set["dupinst"] = true
+			}
+		}
 	}
 	out := make([]string, 0, len(set))
 	for s := range set {
